@@ -148,12 +148,15 @@ def run_session(tree, limit, script, keep_objects=False):
     ses.limit = limit
     ses.steps = []
     ses.ignored = set()
+    ses.paths = set()
+    ses.patterns = []
     try:
         L10.populate(root, tree)
         fsc = L10.FaultyFS()
         project = Project(root, fscommands=fsc, ropefolder=None, max_history_items=limit)
         hist = project.history
         ses.max_undos = hist.max_undos
+        ses.patterns = list(project.prefs.get("ignored_resources") or [])
         tag = 0
         snap = L10.snapshot(root)
         for op in script:
@@ -190,6 +193,7 @@ def run_session(tree, limit, script, keep_objects=False):
                 fsc.reset(armed=None, op="do")
                 if st.build_error is None:
                     for res in built.get_changed_resources():
+                        ses.paths.add(res.path)
                         if project.is_ignored(res):
                             ses.ignored.add(res.path)
                     try:
@@ -222,8 +226,13 @@ def run_session(tree, limit, script, keep_objects=False):
                         returned = hist.redo(_foreign_change(project), task_handle=handle)
                 except Exception as e:
                     exc = e
+            elif op[0] == "limit":
+                # the preference is lowered / raised between two operations; History.max_undos reads it each time
+                st.sel = int(op[1])
+                project.prefs.set("max_history_items", st.sel)
             else:
                 raise ValueError(op)
+            st.limit_now = hist.max_undos
             st.raised = exc is not None
             st.codes = exc_codes(exc) if exc is not None else []
             st.exc_repr = repr(exc)[:200] if exc is not None else None
@@ -252,6 +261,8 @@ def run_session(tree, limit, script, keep_objects=False):
                 st.op = ["do", st.change] if st.change is not None else ["do", None]
             elif op[0] == "undo":
                 st.op = ["undo", st.sel, st.drop]
+            elif op[0] == "limit":
+                st.op = ["limit", st.sel]
             else:
                 st.op = ["redo", st.sel]
             ses.steps.append(st)
@@ -460,6 +471,8 @@ class Printer:
         return self._name("tr", "list (list N * node)", g_list(items))
 
     def g_op(self, st):
+        if st.kind == "limit":
+            return "(ORedo None)"
         if st.kind == "do":
             return "(ODo %s)" % self.g_change(st.change)
         sel = g_opt(None if st.sel is None else g_nat(min(max(st.sel, 0), 4000)))
@@ -469,8 +482,9 @@ class Printer:
 
     def g_step(self, st):
         deps = [d for d in (st.deps or [])]
-        irrev = g_opt(g_bool(st.py_irrev)) if (st.kind == "do" and st.unknown_phase == 0 and not st.raised) else "None"
-        return ("{| t_op := %s; o_raised := %s; o_err := %s; o_tree := %s; o_undo := %s; o_redo := %s; o_deps := %s; "
+        irrev = g_opt(g_bool(st.py_irrev)) if (st.kind != "limit" and st.unknown_phase == 0 and not st.raised) else "None"
+        setlim = g_opt(g_nat(min(st.sel, 4000))) if st.kind == "limit" else "None"
+        return ("{| t_setlim := " + setlim + "; t_op := %s; o_raised := %s; o_err := %s; o_tree := %s; o_undo := %s; o_redo := %s; o_deps := %s; "
                 "o_irrev := %s |}" % (
                     self.g_op(st), g_bool(st.raised), g_list([g_N(c) for c in st.codes]), self.g_tree(st.post_tree),
                     self.g_changes(st.post_undo), self.g_changes(st.post_redo),
@@ -478,9 +492,14 @@ class Printer:
 
     def g_case(self, ses):
         steps = [st for st in ses.steps if st.build_error is None]
-        return "{| c_tree := %s; c_limit := %s; c_ign := %s; c_steps := %s |}" % (
-            self.g_tree(ses.tree), g_nat(min(ses.max_undos, 4000)), g_list([g_path(p) for p in sorted(ses.ignored)]),
-            g_list([self.g_step(st) for st in steps]))
+        segs = sorted(set(x for p in ses.paths for x in p.split("/") if x))
+        spell = g_list([g_pair(g_N(SEG_ID[x]), self.g_bytes(x) if len(x) > 2 else g_list([g_N(ord(ch)) for ch in x]))
+                        for x in segs])
+        pats = g_list([self._name("b", "list N", g_list([g_N(ord(ch)) for ch in pat])) for pat in ses.patterns])
+        return ("{| c_tree := %s; c_limit := %s; c_spell := %s; c_pats := %s; c_paths := %s; c_ign := %s; c_steps := %s |}" % (
+            self.g_tree(ses.tree), g_nat(min(ses.max_undos, 4000)), spell, pats,
+            g_list([g_path(p) for p in sorted(ses.paths)]), g_list([g_path(p) for p in sorted(ses.ignored)]),
+            g_list([self.g_step(st) for st in steps])))
 
     def file_body(self, sessions, evals):
         cases = [self.g_case(s) for s in sessions]
